@@ -230,12 +230,12 @@ pub fn c07_specs(quick: bool) -> Vec<EwSpec> { c07_parts(quick).0 }
 /// value, or none. The server application greets whoever it is told has connected. Judged: a SYN of a foreign version is refused (no
 /// SYN-ACK, no Connect); Connect for the raw address only after the exact nonce came back; the byte ledger of C18.
 pub fn raw_handshake_scenario(tag: &str, greet: usize) -> Scenario {
-    let name = format!("{}.raw-handshake|greet{}|versions3|he2|acks7|waits2", tag, greet);
+    let name = format!("{}.raw-handshake|greet{}|versions3|he2|acks7+4-frames-built-from-its-own-nonce|waits2", tag, greet);
     let tag_owned = tag.to_string();
     let run = move |ch: &mut Chooser| -> ExecResult {
         let version = [uflow::PROTOCOL_VERSION, uflow::PROTOCOL_VERSION.wrapping_add(1), 0][ch.free(3)];
         let he = ch.free(2) == 1;
-        let variant = ch.free(7);
+        let variant = ch.free(11);
         let wait = [1usize, 5][ch.free(2)];
         let mut cfg = EwCfg::new(1); cfg.handshake_errors = he; cfg.greet = greet;
         let syn = { let mut b = fw(Frame::HandshakeSynFrame(HandshakeSynFrame { version, nonce: 0x0BAD_CAFE, max_receive_rate: 1_000_000, max_packet_size: 1000, max_receive_alloc: 1_000_000 })); b.resize(1472, 0); b };
@@ -257,6 +257,17 @@ pub fn raw_handshake_scenario(tag: &str, greet: usize) -> Scenario {
             _ => None,
         };
         if let Some(a) = ack_nonce { script.push(at(2 + wait, Act::Raw(0, fw(Frame::HandshakeAckFrame(HandshakeAckFrame { nonce_ack: a }))))); }
+        // instead of an ACK: frames of an established connection that the peer can build from what it knows itself (its own nonce is the
+        // first frame id and, masked, the first packet id of its direction)
+        let own = 0x0BAD_CAFEu32;
+        let other: Option<Vec<u8>> = match variant {
+            7 => Some(fw(Frame::DataFrame(DataFrame { sequence_id: own, nonce: false, datagrams: vec![Datagram { sequence_id: own & 0xFFFFF, channel_id: 0, window_parent_lead: 0, channel_parent_lead: 0, fragment_id: 0, fragment_id_last: 0, data: vec![1, 2, 3].into() }] }))),
+            8 => Some(fw(Frame::DataFrame(DataFrame { sequence_id: own, nonce: true, datagrams: vec![] }))),
+            9 => Some(fw(Frame::SyncFrame(SyncFrame { next_frame_id: Some(own.wrapping_add(1)), next_packet_id: Some((own & 0xFFFFF) + 1) }))),
+            10 => Some(fw(Frame::AckFrame(AckFrame { frame_window_base_id: issued.unwrap_or(0), packet_window_base_id: issued.unwrap_or(0) & 0xFFFFF, frame_acks: vec![] }))),
+            _ => None,
+        };
+        if let Some(b) = other { script.push(at(2 + wait, Act::Raw(0, b.clone()))); script.push(at(3 + wait, Act::Raw(0, b))); }
         let mut c1 = Chooser::new(vec![], vec![]);
         let tr = run_ew(&cfg, &script, &env, &mut c1);
         if crate::lwprops::verbose() { print_ew(&cfg, &tr); }
